@@ -122,6 +122,9 @@ def arg(draw, t):
             return ['none']
         if k == 1:
             return draw(arg('int'))
+        if k == 2 and draw(st.booleans()):
+            # a range whose ends are placed relative to the length of the target: up to / at / one past the last position, from either end
+            return ['range_rel', draw(st.sampled_from([0, 0, 1, -1, -2])), draw(st.sampled_from([0, 1, 2, -1])), draw(st.sampled_from([1, 1, 2, -1, -1, -2])), draw(st.booleans())]
         if k == 2:
             return ['range', draw(st.sampled_from(INTS)), draw(st.sampled_from(INTS)), draw(st.sampled_from([1, 2, -1, -2, 3]))]
         return ['list', [draw(arg('int')) for _ in range(draw(st.integers(0, 4)))]]
@@ -273,6 +276,14 @@ class W:
             return slice(self.resolve(a[1], target), self.resolve(a[2], target), self.resolve(a[3], target))
         if t == 'range':
             return range(a[1], a[2], a[3])
+        if t == 'range_rel':
+            n = len(target) if target is not None and hasattr(target, '__len__') else 8
+            lo, hi = a[1], n + a[2]            # hi: n, n+1, n+2 or n-1
+            if a[3] > 0:
+                r = range(max(lo, 0) if a[4] else lo, hi, a[3])
+            else:
+                r = range(hi - 1 if a[4] else hi, lo - 1, a[3])
+            return r
         if t == 'object':
             return object()
         if t == 'dict':
